@@ -356,52 +356,40 @@ type action =
 | AReconf of kind * name
 | ATerm of kind * name
 
-(** val target_actions :
-    (name * rcomp) list -> (name * lcomp) -> action list **)
+(** val gate_for : kind -> gates -> name -> coq_N option **)
 
-let target_actions running = function
+let gate_for k pending n =
+  match k with
+  | KUnit -> alookup n pending
+  | KTarget -> Some N0
+
+(** val comp_actions :
+    kind -> (name * rcomp) list -> gates -> (name * lcomp) -> action list **)
+
+let comp_actions k running pending = function
 | (n, lc) ->
-  (match alookup n running with
-   | Some r ->
-     if N.eqb r.r_ty lc.lc_ty
-     then (AReconf (KTarget, n)) :: []
-     else (ATerm (KTarget, n)) :: ((ASpawn (KTarget, n)) :: [])
-   | None -> (ASpawn (KTarget, n)) :: [])
-
-(** val unit_actions :
-    (name * rcomp) list -> gates -> (name * lcomp) -> action list **)
-
-let unit_actions running pending = function
-| (n, lc) ->
-  (match alookup n pending with
+  (match gate_for k pending n with
    | Some _ ->
      (match alookup n running with
       | Some r ->
         if N.eqb r.r_ty lc.lc_ty
-        then (AReconf (KUnit, n)) :: []
-        else (ATerm (KUnit, n)) :: ((ASpawn (KUnit, n)) :: [])
-      | None -> (ASpawn (KUnit, n)) :: [])
+        then (AReconf (k, n)) :: []
+        else (ATerm (k, n)) :: ((ASpawn (k, n)) :: [])
+      | None -> (ASpawn (k, n)) :: [])
    | None ->
      (match alookup n running with
-      | Some _ -> (ATerm (KUnit, n)) :: []
+      | Some _ -> (ATerm (k, n)) :: []
       | None -> []))
 
-(** val started_unit : gates -> (name * lcomp) -> (name * rcomp) list **)
+(** val started : kind -> gates -> (name * lcomp) -> (name * rcomp) list **)
 
-let started_unit pending = function
+let started k pending = function
 | (n, lc) ->
-  (match alookup n pending with
+  (match gate_for k pending n with
    | Some g ->
      (n, { r_ty = lc.lc_ty; r_gate = g; r_cfg = lc.lc_cfg; r_links =
        lc.lc_links }) :: []
    | None -> [])
-
-(** val started_target : (name * lcomp) -> name * rcomp **)
-
-let started_target = function
-| (n, lc) ->
-  (n, { r_ty = lc.lc_ty; r_gate = N0; r_cfg = lc.lc_cfg; r_links =
-    lc.lc_links })
 
 (** val gone : kind -> name list -> (name * rcomp) list -> action list **)
 
@@ -429,17 +417,22 @@ let spawned k acts =
 let track_clash acts =
   existsb (fun n -> mem n (spawned KTarget acts)) (spawned KUnit acts)
 
+(** val kind_actions :
+    kind -> (name * rcomp) list -> gates -> (name * lcomp) list -> action list **)
+
+let kind_actions k running pending l =
+  app (flat_map (comp_actions k running pending) l) (gone k (names l) running)
+
 (** val spawn : mgr -> lconfig -> action list * mgr **)
 
 let spawn m lc =
   let acts =
-    app (flat_map (target_actions m.m_targets) lc.l_targets)
-      (app (flat_map (unit_actions m.m_units m.m_pending) lc.l_units)
-        (app (gone KUnit (names lc.l_units) m.m_units)
-          (gone KTarget (names lc.l_targets) m.m_targets)))
+    app (kind_actions KTarget m.m_targets m.m_pending lc.l_targets)
+      (kind_actions KUnit m.m_units m.m_pending lc.l_units)
   in
-  (acts, { m_units = (flat_map (started_unit m.m_pending) lc.l_units);
-  m_targets = (map started_target lc.l_targets); m_pending =
+  (acts, { m_units = (flat_map (started KUnit m.m_pending) lc.l_units);
+  m_targets = (flat_map (started KTarget m.m_pending) lc.l_targets);
+  m_pending =
   (filter (fun p -> negb (mem (fst p) (names lc.l_units))) m.m_pending);
   m_gates = m.m_gates; m_gen = m.m_gen })
 
